@@ -167,7 +167,7 @@ def judge(cases, obs, tier):
             vf.cq_bool(c["invert"]), vf.cq_list([vf.cq_bool(v) for v in o["verdicts"]]),
             vf.cq_list([str(j) for j in o["idx"]]), vf.cq_list([str(j) for j in o["nums"]])))
         idx.append(i)
-    fails, errs = vf.coq_eval_sharded("From DT Require Import Lib.Bytes Model.C03_Grep.", terms, "grep_agree", per_shard=500)
+    fails, errs = vf.coq_eval_sharded("From DT Require Import Lib.Bytes Model.C03_Grep.", terms, "grep_agree", per_shard=500, case_type="grep_case")
     errors += errs
     for f in fails:
         model[idx[f]] = "Coq state-machine model grep_recs differs from the implementation (indices or running numbers)"
